@@ -19,6 +19,12 @@ them (element-wise `W[i, j] += p[i]*p[j]` casts silently), so the model does not
 Kind 'states/<dtype>/...': initial rows of dtype int8 / int16 / int32 / int64 / float32 / float64 (a float row evolves
 to +-1.0, reported as ints; a non-integral value is reported as 9999), a few with N = 133..141 so that partial sums of
 the weighted input pass 127.
+Kind 'lifetime/...': the caller keeps only what evolve() needs -- `net.apply_rule` and `net.r` (and observations such
+as net.W taken BEFORE) -- and drops the net (`del`, gc.collect()) before evolving: c['drop'] = 'before-all' (a helper
+returns rule and radius) or 'before-last' (one or two evolutions with the net alive, the last one after dropping it).
+The property says "evolving with the net's rule and radius"; nothing says the caller must keep the net.  The harness
+itself holds no other reference (checked with gc.get_referrers against its own containers; obs['net_alive'] records
+whether the library itself still keeps the net alive through the rule object -- it does on the unchanged tree).
 Kind 'large/...': N in {129, 131, 201}, where the weighted input of a cell exceeds 127 in magnitude, with
 int8 and int64 state arrays (an input that wraps in a narrow dtype flips the sign of the update).
 """
@@ -34,7 +40,7 @@ NONTRIVIAL_RULE = ('non-trivial = the evolution returned an array with at least 
 EXHAUSTIVE = {'quick': False, 'thorough': False}
 NOTES = ['N = 3: all 8 starts x all 6 update orders enumerated in both tiers; N in {5,7,9,11,15} sampled; '
          'N in {31,63,127} a few cases with 2-8 steps; same net evolved 2-3 times (sequence/same-net); '
-         '127/128/129 equal patterns; pattern sets in 11 containers / dtypes (patterns/<form>) and states in 6 dtypes; '
+         '127/128/129 equal patterns; net dropped before evolving, only its rule and radius kept (lifetime/...); pattern sets in 11 containers / dtypes (patterns/<form>) and states in 6 dtypes; '
          'N in {129,131,201} (weighted inputs beyond 127) with int8 and int64 states, 3-6 steps; W compared in full',
          'model compared = evolve_plain + async_rule1 (Model/Async.v, scripted shuffle) + hopfield_rule1; '
          'the direct schedule model hop_evolve must agree with it as well']
@@ -49,9 +55,41 @@ def _bip(rng, n):
     return [rng.choice([-1, 1]) for _ in range(n)]
 
 
-def _case(kind, N, P, perm, s, T, dtype, pform, P1=None, pre=None):
+def _case(kind, N, P, perm, s, T, dtype, pform, P1=None, pre=None, drop=None):
     return {'kind': kind, 'N': N, 'P': P, 'perm': perm, 's': s, 'T': T, 'dtype': dtype, 'pform': pform, 'P1': P1,
-            'pre': pre or []}
+            'pre': pre or [], 'drop': drop}
+
+
+def _lifetime(rng, tier):
+    """only (net.apply_rule, net.r) survive: the net object is dropped before (the last) evolve"""
+    reps = 1 if tier == 'quick' else 5
+    for rep in range(reps):
+        for i in range(24):
+            N = (SIZES + [31])[i % 7]
+            P = [_bip(rng, N) for _ in range(1 + i % 3)]
+            perm = list(range(N))
+            rng.shuffle(perm)
+            if i % 4 == 0:
+                s = list(P[0]) if i % 8 else [-x for x in P[0]]
+            elif i % 4 == 1:
+                s = list(rng.choice(P))
+                for k in rng.sample(range(N), rng.randint(1, max(1, N // 3))):
+                    s[k] = -s[k]
+            else:
+                s = _bip(rng, N)
+            T = rng.randint(2, min(2 * N + 2, 24))
+            mode = i % 3
+            if mode == 0:
+                yield _case('lifetime/helper-returns-rule-and-r', N, P, perm, s, T, rng.choice(['int32', 'int64']),
+                            rng.choice(['list', 'array', 'float64']), drop='before-all')
+            elif mode == 1:
+                yield _case('lifetime/del-then-evolve-twice', N, P, perm, s, T, rng.choice(['int32', 'int64']),
+                            rng.choice(['list', 'array']), drop='before-all', pre=[[_bip(rng, N), rng.randint(2, N + 2)]],
+                            P1=([_bip(rng, N)] if i % 2 else None))
+            else:
+                yield _case('lifetime/evolve-alive-then-dropped', N, P, perm, s, T, rng.choice(['int32', 'int64']),
+                            rng.choice(['list', 'array']), drop='before-last',
+                            pre=[[_bip(rng, N), rng.randint(2, N + 2)] for _ in range(1 + i % 2)])
 
 
 # how a pattern set is handed to train(); 'list' and 'array' are the two forms of the earlier buckets
@@ -192,7 +230,7 @@ def _large(rng, tier):
 
 
 def generate(rng, tier):
-    small = list(_generate_small(rng, tier)) + list(_forms(rng, tier))
+    small = list(_generate_small(rng, tier)) + list(_forms(rng, tier)) + list(_lifetime(rng, tier))
     large = list(_large(rng, tier)) + list(_mid(rng, tier)) + list(_forms_big(rng, tier))
     # spread the expensive cases evenly over the list (the driver shards it in order, 400 per coqc process)
     if large:
@@ -307,6 +345,8 @@ def _energy2(W, row):
 
 
 def run_impl(c):
+    import gc
+    import weakref
     import numpy as np
     import cellpylib as cpl
     N, perm = c['N'], c['perm']
@@ -330,7 +370,8 @@ def run_impl(c):
     obs['r'] = list(call_impl(build))
     if obs['r'][0] != 'ok':
         return obs
-    net = state['net']
+    kept = {}          # what survives the net in the 'lifetime' cases: its rule and its radius, nothing else
+
     def form(ps):
         return make_patterns(np, ps, c['pform'])
 
@@ -341,9 +382,9 @@ def run_impl(c):
 
     def train():
         if c.get('P1') is not None:      # an earlier training of the same instance
-            net.train(form(c['P1']))
-        net.train(P)
-        return ints(net.W)
+            state['net'].train(form(c['P1']))
+        state['net'].train(P)
+        return ints(state['net'].W)
 
     obs['W'] = list(call_impl(train))
     if obs['W'][0] != 'ok':
@@ -351,15 +392,38 @@ def run_impl(c):
 
     def evolve(s0, T):
         initial = np.array([s0], dtype=getattr(np, c['dtype']))
-        ca = cpl.evolve(initial, timesteps=T, apply_rule=net.apply_rule, r=net.r)
+        if 'net' in state:
+            rule, r = state['net'].apply_rule, state['net'].r
+        else:
+            rule, r = kept['rule'], kept['r']
+        ca = cpl.evolve(initial, timesteps=T, apply_rule=rule, r=r)
         return ints(ca)
 
-    for s0, T0 in c.get('pre') or []:      # earlier evolutions on the same net object
+    def drop_net():
+        """keep only (net.apply_rule, net.r); drop every harness reference to the net; collect"""
+        n = state.pop('net')
+        kept['rule'], kept['r'] = n.apply_rule, n.r
+        wr = weakref.ref(n)
+        del n
+        gc.collect()
+        n = wr()
+        obs['net_alive'] = n is not None     # True = the library itself keeps the net alive through the rule object
+        if n is not None:                    # ... then no container of the harness may be among its referrers
+            mine = (state, kept, obs, c)
+            obs['harness_holds_net'] = any(any(x is h for h in mine) for x in gc.get_referrers(n))
+        del n
+
+    pre = c.get('pre') or []
+    if c.get('drop') == 'before-all':
+        drop_net()
+    for k, (s0, T0) in enumerate(pre):      # earlier evolutions on the same net object
         o = list(call_impl(evolve, s0, T0))
         obs['pre'].append(o)
         if o[0] != 'ok':
             obs['rows'] = o
             return obs
+    if c.get('drop') == 'before-last':
+        drop_net()
     obs['rows'] = list(call_impl(evolve, c['s'], c['T']))
     if obs['rows'][0] == 'ok':
         W = obs['W'][1]
@@ -386,6 +450,8 @@ def nontrivial(c, obs):
 def oracle(c, obs):
     """The property's own statements, evaluated on the implementation's output."""
     N, P = c['N'], c['P']
+    if obs.get('harness_holds_net'):
+        return 'harness bug: a container of the harness still references the net after dropping it'
     if obs['r'][0] != 'ok' or obs['W'][0] != 'ok' or obs['rows'][0] != 'ok':
         return 'a valid odd-sized bipolar case raised: r=%s W=%s rows=%s' % (obs['r'][0], obs['W'][0], obs['rows'][0])
     W, rows = obs['W'][1], obs['rows'][1]
@@ -434,6 +500,8 @@ def shrink(c):
     if len(c['P']) > 1:
         yield dict(c, P=c['P'][:-1])
         yield dict(c, P=c['P'][1:])
+    if c.get('drop'):
+        yield dict(c, drop=None)
     if c.get('pre'):
         yield dict(c, pre=c['pre'][1:])
         yield dict(c, pre=[[st[0], max(1, st[1] // 2)] for st in c['pre']])
